@@ -181,7 +181,15 @@ def gen_txt_file(rng, used, dirs=("", "docs", "pkg")):
 
 
 def gen_xml_file(rng, used, dirs=("", "conf", "pkg")):
-    return {"path": rand_path(rng, used, list(dirs), ext=".xml"), "raw": {"t": rng.choice(XML_DOCS)}}
+    text = rng.choice(XML_DOCS)
+    r = rng.random()
+    if r < 0.2:
+        text = text.replace("\n", "\r\n")  # e.g. a web.config edited on Windows
+    elif r < 0.25:
+        text = text.replace("\n", "\r")
+    elif r < 0.35:
+        text = text.rstrip("\n")
+    return {"path": rand_path(rng, used, list(dirs), ext=".xml"), "raw": {"t": text}}
 
 
 def sonar_findings_for_txt(path, text, rng, p=0.7):
